@@ -192,6 +192,10 @@ func EvaluateCases(prop, tag string, cases []*Case, sc *core.Scratch, ev *core.E
 			accepted++
 		case "error":
 			rejected++
+			if !strings.HasPrefix(c.Origin, "args:") && !strings.HasPrefix(c.Origin, "writer:") && !strings.HasPrefix(c.Origin, "probe:") {
+				// a corpus element moq refuses is not judged at all: say so loudly
+				rep.DriftNote(fmt.Sprintf("moq rejects corpus element %s (%s): its content is not judged in this run", c.Origin, firstLines(c.Obs.Err, 1)))
+			}
 		default:
 			crashed++
 		}
